@@ -48,6 +48,7 @@ def pair_exact(ka, inta, kb, intb):
     hform = (a[3] is None and a[4] is None) or (b[3] is None and b[4] is None)
     if hform and ((a[5] * 60 + a[6]) - (b[5] * 60 + b[6])) % 60:
         return False
+    # a decimal-minute form absorbs whole minutes exactly; nothing else to ask
     return True
 
 
@@ -73,7 +74,7 @@ def install(ctx, repo, probes):
             if p._truncated or not R.tp_valid(mode, p):
                 v = (None, False)
             else:
-                v = (R.tp_instant(mode, p), R.tp_is_integral(p))
+                v = (R.tp_instant(mode, p), R.tp_is_dyadic(p))
             ctx.inst_of[k] = v
         return k, v
 
@@ -275,7 +276,7 @@ def run_case(ctx, repo, case):
 
 
 DELTAS = (0, 0, 0, 1, -1, 60, -60, 3600, -3600, 86400, -86400, 59, 86399,
-          -86399, 3599)
+          -86399, 3599, 900, -900, 1800, 30, -15, 2700)
 
 
 def make_cluster(rng, mode, exact=True):
@@ -303,7 +304,7 @@ def make_cluster(rng, mode, exact=True):
             if form == "hmsf":
                 kw.update(hour_of_day=h, minute_of_hour=m, second_of_minute=s,
                           second_of_minute_decimal=rng.choice(
-                              (0.5, 0.25, 0.000001, 0.999999)))
+                              (0.5, 0.25, 0.75, 0.000001, 0.999999)))
             elif form == "hm":
                 kw.update(hour_of_day=h, minute_of_hour=m,
                           minute_of_hour_decimal=s / 60.0)
